@@ -1046,6 +1046,7 @@ def stdio_schedule(seed, N, faults=0.0):
     rng = random.Random(seed * 7919 + 17)
     ops = ["I 0 0 0"]; clean = True; now = 0
     quit_at = rng.randrange(2, max(3, N))
+    sig_at = rng.randrange(1, N) if rng.random() < 0.2 else -1
     # requests that need a device stay "in progress" unless the device answers (it does not in this schedule): one run in four has them
     cmds = STDIO_CMDS if rng.random() < 0.25 else [c for c in STDIO_CMDS if not (c.startswith(b'status') or c.startswith(b'on '))]
     for i in range(N + 40):
@@ -1074,6 +1075,10 @@ def stdio_schedule(seed, N, faults=0.0):
             # the capacity is stated in every pass (the final flush of `quit` writes whether or not poll reported room)
             cap = rng.choice([0, 1, 7, 64, 300, 1024, 4096, 65536, 1 << 20])
             evs.append("%d:%d:0:-:%d" % (STDIO_OUT, 2 if (r < 0.85 and cap > 0) else 0, cap))
+        if sig_at == i:
+            # SIGTERM while the client is being served: the pass ends in the teardown, whatever poll would have reported
+            clean = False
+            ops.append("Q %d 0 0 0 %s" % (now, " ".join(evs))); break
         ops.append("P %d 0 0 0 %s" % (now, " ".join(evs)))
     return ops, clean
 
